@@ -7,12 +7,15 @@ PKG = "pkg/cluster"
 SAFETY = "INVARIANTS TypeOK RealStatesMonotone Distinct FirstNotEmpty FirstIsCurrent\n"
 
 
-def syncer_cfg(keys, watched, vals, writes, ticker=True, live=True, restarts=1, cancels=1, buf=2, scope=None, page1=None):
-    """scope: keys a pull returns (default = watched, the code); page1: keys read by the first request of a pull (default = all keys: one request)"""
+def syncer_cfg(keys, watched, vals, writes, ticker=True, live=True, restarts=1, cancels=1, buf=2, scope=None, page1=None, stale_guard=False,
+               resync_after=0):
+    """scope: keys a pull returns (default = watched, the code); page1: keys read by the first request of a pull (default = all keys: one request);
+    stale_guard: a pull whose highest mod revision is below the cached one is ignored (the code: no); resync_after: the cached snapshot is
+    forgotten at the n-th consecutive failed pull (the code: never)"""
     return ("SPECIFICATION %s\nCONSTANTS\n  Keys = %s\n  Watched = %s\n  Vals = %s\n  Buf = %d\n  MaxWrites = %d\n  MaxRestarts = %d\n"
-            "  MaxCancels = %d\n  Ticker = %s\n  PullScope = %s\n  Page1 = %s\n%s%s"
+            "  MaxCancels = %d\n  Ticker = %s\n  PullScope = %s\n  Page1 = %s\n  StaleGuard = %s\n  ResyncAfter = %d\n%s%s"
             % ("FairSpec" if live else "Spec", keys, watched, vals, buf, writes, restarts, cancels, "TRUE" if ticker else "FALSE",
-               scope or watched, page1 or keys, SAFETY, "PROPERTIES Converges\n" if live else ""))
+               scope or watched, page1 or keys, "TRUE" if stale_guard else "FALSE", resync_after, SAFETY, "PROPERTIES Converges\n" if live else ""))
 
 
 # k1x: a key under the prefix whose name has the watched key k1 as a string prefix; fill: the filler keys of a big prefix
@@ -25,14 +28,18 @@ def run(ctx):
     ctx.cov["rule"] = ("traces = recorded scenarios of real syncers (Sync / SyncRaw / SyncPrefix / SyncRawPrefix, fast and slow consumers) on an "
                        "embedded etcd under a seeded write history (bursts, same-value puts, delete-then-recreate, multi-key transactions, "
                        "keys outside the prefix, a sibling key that has the watched key as a string prefix; some on a prefix of 1300 keys with "
-                       "never-repeated values and back-to-back transactions over its first and last key), half of them across a stop/start of the etcd server followed by a compaction (cancelled "
-                       "watch); TLC rebuilds the store history from the writer's inv/ret events and checks every snapshot and the final "
+                       "never-repeated values and back-to-back transactions over its first and last key; endings chosen by the keys' modification order: deletion of the "
+                       "most recently modified key while older keys remain, of the oldest key, same-value put, delete-then-recreate), half of them across a stop/start of the "
+                       "etcd server (some outages longer than three request time-outs with the content left unchanged) followed by a compaction (cancelled "
+                       "watch), one per wave on a member whose etcd requests are made to fail for 3-6 consecutive pulls of every run loop while the content does not change; TLC rebuilds the store history from the writer's inv/ret events and checks every snapshot and the final "
                        "convergence claim against the contract; non-trivial = scenarios with at least 3 distinct contents or a fault")
     ctx.assumptions += ["the consumer's view starts as the empty content: an initially empty key/prefix needs no delivery (the code sends nothing then)",
                         "convergence is checked as bounded liveness: the harness waits up to 40 s (pull interval 200 ms) before it logs the consumers' views",
                         "the server is restarted with embed.StartEtcd on the member's own configuration (cluster.StartServer's re-registration of the "
                         "cluster name panics when the member's client has not reconnected yet); no write is issued while the server is down",
-                        "etcd range reads are atomic and watch delivery is trusted"]
+                        "etcd range reads are atomic and watch delivery is trusted",
+                        "request failures of a member (a partition between it and the server) are injected at the KV interface of that member's etcd client; "
+                        "its watch stream stays up"]
     if ctx.phase("mc"):
         _mc(ctx)
     if ctx.phase("tv"):
@@ -65,6 +72,21 @@ def _mc(ctx):
     if r.ok or r.violated != "RealStatesMonotone":
         ctx.inconclusive("Syncer: an unpinned two-page pull does not violate RealStatesMonotone in the model (%s %s)" % (r.violated, r.error))
     ctx.notes.append("model: a single-key pull that also returns sibling keys violates Distinct; a two-page pull not pinned to one revision violates RealStatesMonotone")
+    # what the clauses owe to pullCompareSend taking every successful pull at face value and to a failed pull changing nothing
+    # (both decided on the real code by the trace validation: histories ending with the deletion of the most recently modified
+    # key, outages of several pulls with unchanged content):
+    # a pull that is ignored because its highest mod revision is below the cached one never delivers "newest key deleted" ...
+    r = ctx.tlc_mc("Syncer", syncer_cfg(k2, k2, '{"v1"}', 3, restarts=0, cancels=0, stale_guard=True), label="SyncPrefix ignoring pulls with a lower highest mod revision",
+                   expect_ok=False, count=False, timeout=300, workers=2)
+    if r.ok or "Converges" not in (r.error or "") + r.out[-6000:]:
+        ctx.inconclusive("Syncer: a stale-read guard on mod revisions does not violate Converges in the model (%s %s)" % (r.violated, r.error))
+    # ... and a syncer that forgets its cached snapshot after consecutive failed pulls re-sends an unchanged content
+    r = ctx.tlc_mc("Syncer", syncer_cfg(k2, '{"k1"}', '{"v1"}', 1, live=False, restarts=1, cancels=0, resync_after=2).replace(SAFETY, "INVARIANTS TypeOK Distinct\n"),
+                   label="Sync(key) forgetting its snapshot at the 2nd failed pull in a row", expect_ok=False, count=False, timeout=300, workers=2)
+    if r.ok or r.violated != "Distinct":
+        ctx.inconclusive("Syncer: forgetting the cached snapshot after failed pulls does not violate Distinct in the model (%s %s)" % (r.violated, r.error))
+    ctx.notes.append("model: ignoring a pull whose highest mod revision is lower than the cached one violates Converges (put k1, put k2, delete k2); "
+                     "forgetting the cached snapshot after consecutive failed pulls violates Distinct (stop, 2 failed pulls, start)")
 
 
 def _tv(ctx):
@@ -84,7 +106,7 @@ def _tv(ctx):
     if rc != 0 or not ev or any(e.get("ev") == "setup-failed" for e in ev):
         ctx.inconclusive("C19 syncer harness failed:\n" + out[-3000:] + jdump([e for e in ev if e.get("ev") == "setup-failed"]))
     failed = [e for e in ev if e.get("ev") == "scenario-failed"]
-    scen = split_scenarios(ev, keep=lambda e: e.get("ev") in ("w.inv", "w.ret", "start", "snap", "stop", "up", "conv"))
+    scen = split_scenarios(ev, keep=lambda e: e.get("ev") in ("w.inv", "w.ret", "start", "snap", "stop", "up", "part", "heal", "conv"))
     scen = [s for s in scen if not any(e.get("ev") == "w.ret" and not e.get("ok") for e in s["events"])]
     if len(failed) > max(1, len(scen) // 4) or not scen:
         ctx.inconclusive("C19: too many scenarios with failed writes (%d): %s" % (len(failed), jdump(failed[:3])))
@@ -125,7 +147,24 @@ def _tv(ctx):
             faulty_with_snaps += 1
     ctx.cov["syncer_snapshots"] = nsnap
     ctx.cov["syncer_scenarios"] = {"total": len(scen), "faulty": sum(1 for s in scen if s["reset"].get("faulty")), "dropped_failed_writes": len(failed)}
+    # the classes of histories / faults the convergence and "consecutive snapshots differ" clauses are most exposed to
+    def has_prefix_consumer(sc):
+        return any(e.get("ev") == "start" and e.get("kind") == "prefix" for e in sc["events"])
+    endings = {}
+    for sc in scen:
+        endings[sc["reset"].get("ending")] = endings.get(sc["reset"].get("ending"), 0) + 1
+    del_newest = sum(1 for sc in scen if sc["reset"].get("ending") == "del-newest" and has_prefix_consumer(sc))
+    heals = [e for sc in scen for e in sc["events"] if e.get("ev") == "heal"]
+    outages = sum(e.get("outages_unchanged_3plus", 0) for e in ev if e.get("ev") == "lossy-summary")
+    ctx.cov["syncer_history_endings"] = endings
+    ctx.cov["syncer_outages"] = {"member_cut_off": len(heals),
+                                 "last_writes_while_cut_off": sum(1 for sc in scen for e in sc["all"] if e.get("ev") == "note"), "unchanged_content_3plus_failed_pulls_per_loop": outages,
+                                 "long_server_outage_scenarios": sum(1 for sc in scen if sc["reset"].get("long_outage"))}
     ctx.sample({"kind": "syncer-scenario", "events": scen[0]["events"][:12]})
     ctx.log("syncer TV: %d scenarios (%d faulty), %d accepted, %d snapshots" % (len(scen), ctx.cov["syncer_scenarios"]["faulty"], ok, nsnap))
-    if nsnap < 2 * len(scen) or faulty_with_snaps == 0:
+    if (nsnap < 2 * len(scen) or faulty_with_snaps == 0) and not ctx.violations:
         ctx.inconclusive("C19 TV is vacuous: too few snapshots (%d) or no faulty scenario with snapshots" % nsnap)
+    # (a code change that breaks the periodic pull also keeps an outage from being counted: vacuity never hides a violation)
+    if (del_newest == 0 or outages == 0) and not ctx.violations:
+        ctx.inconclusive("C19 TV is vacuous: no prefix consumer saw a history ending with the deletion of the newest key (%d), or no syncer went "
+                         "through an outage of 3 or more failed pulls with unchanged content (%d)" % (del_newest, outages))
